@@ -3,6 +3,7 @@
 package memory
 
 import (
+	"math"
 	"sync"
 	"time"
 
@@ -44,7 +45,8 @@ func (s *Storage) Get(key string) any {
 func (s *Storage) Set(key string, val any, ttl time.Duration) {
 	var exp uint32
 	if ttl > 0 {
-		exp = uint32(ttl.Seconds()) + utils.Timestamp()
+		// saturate: a very long lifetime must not wrap round into the past
+		exp = uint32(min(uint64(ttl.Seconds())+uint64(utils.Timestamp()), math.MaxUint32))
 	}
 	i := item{e: exp, v: val}
 	s.Lock()
